@@ -207,8 +207,26 @@ fn range_audit(o: &mut Out) {
     }
 }
 
+/// `hm abort-probe <constructor> <type byte>`: one call of a generic constructor, in a build with
+/// panic = "abort" (native, not Miri). Prints RETURNED and the bytes if the call returns; a
+/// wrong-category call must kill the process instead.
+fn abort_probe(ctor: &str, type_byte: u8) -> ! {
+    let t = ShortMessageType::try_from(type_byte).expect("harness: not a type byte");
+    let m = match ctor {
+        "channel_message" => RawShortMessage::channel_message(t, Channel::new(5), U7::new(1), U7::new(2)),
+        "system_common_message" => RawShortMessage::system_common_message(t, U7::new(1), U7::new(2)),
+        _ => RawShortMessage::system_real_time_message(t),
+    };
+    let b = m.to_bytes();
+    println!("RETURNED {} {} {}", b.0, b.1.get(), b.2.get());
+    std::process::exit(0)
+}
+
 fn main() {
     let args: Vec<String> = std::env::args().collect();
+    if args.len() >= 4 && args[1] == "abort-probe" {
+        abort_probe(&args[2], args[3].parse().unwrap_or(0));
+    }
     let id = args.get(1).cloned().unwrap_or_else(|| "C04".to_string());
     if let Some((h, calls)) = xt::transcript(&id) {
         // a scanner / encoder check: only the cross-target transcript
